@@ -165,10 +165,7 @@ func resolvePrio(p *Prog) (*prioRoles, error) {
 				case w.Field == "tactic" && w.Kind == "zero" && strings.HasPrefix(w.Key.String(), "next:"):
 					pr.resetFn = fn
 				case w.Field == "tactic" && w.Kind == "assign":
-					d := w.Val
-					if d.Op == "bin" && d.Name == "-" && d.Args[0].Op == "index" && d.Args[1].Op == "index" {
-						pr.topUpFn = fn
-					}
+					pr.topUpFn = fn
 				case w.Field == "actual" && w.Kind == "delta" && w.Delta == -1:
 					pr.decActualFn = fn
 				}
